@@ -99,6 +99,7 @@ func c02Pairing(c *Ctx) {
 		{"pushOverlay", pairSpec{oc + "pushOverlay", []string{oc + "popOverlay"}}, 1},
 		{"markDepth", pairSpec{nc + "markDepth", []string{nc + "unmarkDepth"}}, 1},
 		{"incDepth", pairSpec{nc + "incDepth", []string{nc + "decDepth"}}, 2},
+		{"retainProcess", pairSpec{nc + "retainProcess", []string{nc + "releaseProcess"}}, 3},
 	}
 	for _, p := range pairs {
 		r := c.checkPairing("frames.paired/"+p.name, bodies, p.spec, map[string]string{})
